@@ -26,7 +26,8 @@ def lastPrefix : Bytes := joinLenPrefix [[97, 47]]    -- "a/"  lastCommitIDPrefi
 structure BlockIn where
   ops : Overlay                    -- pending state operations
   smt : List (Bytes × Bytes) := [] -- SMT node writes (opaque here; C08 relates them to `ops`)
-  idx : List (Bytes × Bytes) := [] -- indexer entries: block, txs, QC, events
+  idx : List (Bytes × Bytes) := [] -- indexer entries: block, txs, QC, events, checkpoints, double signers
+  idxDel : List Bytes := []        -- indexer deletions (`DeleteCheckpointsForChain`): tombstones at the block's version
   root : Bytes := []               -- the state root recorded in the commit id
 
 /-- the commit-id value: height and root (the real value is the protobuf `CommitID{Height, Root}`) -/
@@ -60,7 +61,8 @@ def smtPart (next : Nat) (b : BlockIn) : List BatchOp :=
 /-- latest + historical state + tombstone purge: exactly C10's `commitBatch` -/
 def statePart (next : Nat) (b : BlockIn) : List BatchOp := commitBatch b.ops next
 def idxPart (next : Nat) (b : BlockIn) : List BatchOp :=
-  b.idx.map fun e => .put (mkKey (idxPrefix ++ e.1) next) (rawAlive e.2)
+  (b.idx.map fun e => .put (mkKey (idxPrefix ++ e.1) next) (rawAlive e.2)) ++
+  (b.idxDel.map fun k => .put (mkKey (idxPrefix ++ k) next) rawDead)
 
 inductive Shape
   | single   -- everything through `s.writer`, one `db.Apply`
@@ -133,6 +135,54 @@ def applyEv (sh : Shape) (ptr : PtrAt) (d : Disk) : Ev → Disk
     | _ => d
 
 def runEv (sh : Shape) (ptr : PtrAt) (d : Disk) (evs : List Ev) : Disk := evs.foldl (applyEv sh ptr) d
+
+/-! ## a block's transactions, each in its own nested store
+
+`fsm.ApplyTransactions` runs every transaction in its own `Store.NewTxn()` (a nested state transaction and a
+nested indexer transaction over the block's store), and `Flush()`es it into the block's store when the
+transaction succeeded or discards it. The block that is committed is the block's own writes with the flushed
+transactions' writes on top. -/
+
+/-- what `Store.Flush()` on a nested store hands to its parent: the nested state transaction AND the nested
+indexer transaction (the code as it stands — derived from generated facts in `Props/C09.lean`), or the state
+transaction only -/
+inductive NestedFlush
+  | both
+  | stateOnly
+  deriving DecidableEq, Repr
+
+/-- one transaction: its state operations and its index operations (checkpoints, double signers,
+`DeleteCheckpointsForChain`), in program order, and whether it is flushed or discarded -/
+structure TxIn where
+  ops : List (Bytes × TOp) := []
+  idx : List (Bytes × TOp) := []
+  flush : Bool := true
+
+/-- `Txn.Commit` of a nested transaction: every operation written into the parent, later ones winning -/
+def writeAll (acc : Overlay) (ws : List (Bytes × TOp)) : Overlay := ws.foldl (fun o e => smSet o e.1 e.2) acc
+
+def applyTx (nf : NestedFlush) (acc : Overlay × Overlay) (tx : TxIn) : Overlay × Overlay :=
+  if tx.flush then
+    (writeAll acc.1 tx.ops, match nf with
+      | .both => writeAll acc.2 tx.idx
+      | .stateOnly => acc.2)
+  else acc
+
+/-- the pending state and index operations of the block's store after its transactions -/
+def pendingOfTxs (nf : NestedFlush) (own : BlockIn) (txs : List TxIn) : Overlay × Overlay :=
+  txs.foldl (applyTx nf) (own.ops, writeAll [] (own.idx.map (fun e => (e.1, TOp.set e.2)) ++ own.idxDel.map (fun k => (k, TOp.del))))
+
+/-- the block that `Commit` writes -/
+def blockOfTxs (nf : NestedFlush) (own : BlockIn) (txs : List TxIn) : BlockIn :=
+  let acc := pendingOfTxs nf own txs
+  { own with
+    ops := acc.1
+    idx := acc.2.filterMap fun e => match e.2 with
+      | .set v => some (e.1, v)
+      | .del => none
+    idxDel := acc.2.filterMap fun e => match e.2 with
+      | .del => some e.1
+      | .set _ => none }
 
 /-! observations on a (re)opened store -/
 
